@@ -27,6 +27,9 @@ except Exception:  # renamed / moved: function-level sub-check is skipped, the A
     _from_sym = _to_sym = None
 
 EXTRA = ["[F]", "[Xx]", "[nop]", "[epsilon]", None]
+# symbols outside the sixteen that look like grammar symbols (other ring / branch symbols, pre-v2 names, atoms with bond prefixes)
+NON_INDEX = ["[F]", "[Xx]", "[epsilon]", "[Cl]", "[=O]", "[Ring3]", "[Branch3]", "[=Ring1]", "[#N]", "[=S]", "[Branch1_1]", "[Branch2_3]",
+             "[Expl=Ring1]", "[Cexpl]", "[CH1]", "[13C]"]
 TRIPLE_SYMS = INDEX + EXTRA
 
 
@@ -252,11 +255,21 @@ def shard(ctx):
         if w == 1:
             L = ch.int(1, 3)
             m = ch.int(0, L)
-            syms_ = [ch.pick(INDEX + ["[F]", "[Xx]", "[epsilon]", "[Cl]", "[=O]"]) for _ in range(m)]
+            syms_ = [ch.pick(INDEX + NON_INDEX) for _ in range(m)]
             return dict(kind="dec_ring_syms", syms=syms_, L=L)
         n = ch.weighted([(3, None), (1, 15), (1, 16), (1, 255), (1, 256), (1, 4095)])
         if n is None:
             n = ch.int(0, 4095) if ch.bool(30) else ch.int(0, 600)
         return dict(kind=["dec_ring", "dec_branch", "enc_ring", "enc_branch"][w - 2], n=max(n, 1 if w == 4 else 0))
 
+    # every non-index symbol at every digit position of a two-digit ring index
+    j = 0
+    for sym in NON_INDEX:
+        for pos in (0, 1):
+            for other in ("[Ring1]", "[P]"):
+                if j % K == k:
+                    syms_ = [other, other]
+                    syms_[pos] = sym
+                    ctx.check(dict(kind="dec_ring_syms", syms=syms_, L=2))
+                j += 1
     ctx.drive("sampled", gen, ctx.n(150, 1500), max_bytes=40)
